@@ -26,7 +26,12 @@ disabled actions are ignored (`stepD`).
 
 `Cfg.excl` selects the scope discipline: `false` is the code before the repair
 (`resolution_scope` is a plain counter; `get` opens a scope only when the shared
-depth is 0), `true` is the repaired code (`resolution_scope` holds the manager's
+depth is 0 -- modelled for the top-level `get` of an invocation; the old code made
+the same test again at every nested `get`, which only differs for a bare `get`
+that joined a scope which closed before its dependencies were resolved: it then
+opened and closed scopes of its own around single dependencies; the witnesses in
+`WfProps/C22.lean` use bare gets of dependency-free resources only), `true` is the
+repaired code (`resolution_scope` holds the manager's
 lock; re-entrant inside the owning task).  `Cfg.skipEmpty`: `partial` enters no
 scope for a step that declares no resources.  Which configuration the current tree
 implements is regenerated from the sources (`WfModel/GenResource.lean`).
@@ -259,7 +264,7 @@ def step (c : Cfg) (g : Graph) (s : St) : Act → Option St
     | none => none
     | some t =>
       match s.tasks[t]? with
-      | none => none
+      | none => some { s with cur := none }  -- cannot happen: `cur` always names a task
       | some k => some (tickTask c g s t k)
   | .resume t =>
     match s.cur with
